@@ -43,7 +43,8 @@ def config(draw):
         n = draw(st.sampled_from([30, 60, 3 * mx + 7, 5 * mx, mx + 25]))
         contents.append([['r', 1000 + i + draw(st.integers(0, 50)) * 10, max(n, 30)]])
     return {'settings': s, 'backend': draw(st.sampled_from(['mem', 'amem'])), 'concurrent': draw(st.sampled_from([1, 2, 5])),
-            'contents': contents, 'paths': PATHS, 'pw_prefix': 'hunter2-Passphrase-', 'note_prefix': 'ConfidentialNote-'}
+            'contents': contents, 'paths': PATHS, 'pw_prefix': 'hunter2-Passphrase-', 'note_prefix': 'ConfidentialNote-',
+            **draw(hist.cache_mode())}
 
 
 def variants(needle):
